@@ -289,6 +289,8 @@ class Interp(object):
         self.total_steps = 0
         self.fns_entered = set()
         self.struct_invariant = None      # optional callable(interp, st, path, variant, fields, site)
+        self.seen_loop_states = set()
+        self.subsumed = 0
 
     # ================================================================ materialisation
     def adt(self, path):
@@ -466,7 +468,10 @@ class Interp(object):
                 if m is not None:
                     self._write_path(st, f, local, path[:n], m)
                     v = f.locals.get(local)
-        return self._get_path(st, v, path)
+        r = self._get_path(st, v, path)
+        if isinstance(r, Un) and r.ty is not None and scalar_name(r.ty) is not None:
+            r = Sc(st.fresh('m', scalar_name(r.ty)), r.ty)      # scalar top: a fresh unconstrained token
+        return r
 
     def _write_path(self, st, f, local, path, val):
         if not path:
@@ -835,6 +840,7 @@ class Interp(object):
 
     def run_state(self, st, key, args, subst):
         self.outcomes = []
+        self.seen_loop_states = set()
         self.push(st, key, args, subst, None, None)
         work = [st]
         while work:
@@ -887,8 +893,116 @@ class Interp(object):
         caller.bb, caller.si = fr.ret_bb, 0
         return [st]
 
+    def loop_heads(self, body):
+        lh = body.get('_loop_heads')
+        if lh is not None:
+            return lh
+        blocks = body['blocks']
+        lh = set()
+        color = {}
+        stack = [(0, iter(self._succ(blocks[0])))]
+        color[0] = 1
+        while stack:
+            n, it = stack[-1]
+            adv = False
+            for m in it:
+                if m >= len(blocks) or blocks[m]['cleanup']:
+                    continue
+                c = color.get(m, 0)
+                if c == 1:
+                    lh.add(m)
+                elif c == 0:
+                    color[m] = 1
+                    stack.append((m, iter(self._succ(blocks[m]))))
+                    adv = True
+                    break
+            if not adv:
+                color[n] = 2
+                stack.pop()
+        body['_loop_heads'] = lh
+        return lh
+
+    @staticmethod
+    def _succ(blk):
+        t = blk['term']
+        k = t['k']
+        if k in ('goto', 'drop', 'assert'):
+            return [t['t']]
+        if k == 'switch':
+            return [bb for _, bb in t['targets']] + [t['otherwise']]
+        if k == 'call':
+            return [t['t']] if t['t'] is not None else []
+        return []
+
+    def state_key(self, st):
+        ren = {}
+        fidmap = {}
+        for i, f in enumerate(st.frames):
+            fidmap[f.fid] = ('s', i)
+        for fid, f in st.heap.items():
+            fidmap[fid] = ('h', f.key if fid else 0)
+
+        def rt(t):
+            k = t[0]
+            if k == 'c':
+                return t
+            if k == 't':
+                r = ren.get(t)
+                if r is None:
+                    r = ('t', 'r%d' % len(ren), t[2])
+                    ren[t] = r
+                return r
+            if k == 'cast':
+                return ('cast', t[1], rt(t[2]))
+            if k == 'op':
+                return ('op', t[1], rt(t[2]), rt(t[3]), t[4])
+            if k == 'cmp':
+                return ('cmp', t[1], rt(t[2]), rt(t[3]))
+            if k == 'not':
+                return ('not', rt(t[1]))
+            if k == 'app':
+                return ('app', t[1], tuple(rt(a) for a in t[2]))
+            return t
+
+        def vk(v):
+            if isinstance(v, Sc):
+                return ('sc', rt(v.term))
+            if isinstance(v, Ag):
+                return ('ag', v.path, v.variant, tuple(vk(f) for f in v.fields))
+            if isinstance(v, Ar):
+                return ('ar', tuple(vk(e) for e in v.elems))
+            if isinstance(v, Rf):
+                return ('rf', fidmap.get(v.fid, v.fid), v.local, tuple((p[0], rt(p[1])) if p[0] == 'i' else p for p in v.path))
+            if isinstance(v, Un):
+                return ('un', ty_str(v.ty) if v.ty else '?')
+            if isinstance(v, Clo):
+                return ('clo', v.path, tuple(vk(c) for c in v.captures))
+            if isinstance(v, It):
+                return ('it', vk(v.rf), v.pos, v.n)
+            return ('?', repr(v))
+        parts = []
+        for f in st.frames:
+            parts.append((f.key if isinstance(f.key, str) else repr(f.key), f.bb, f.si,
+                          tuple((l, vk(v)) for l, v in sorted(f.locals.items(), key=lambda x: str(x[0])))))
+        for fid, f in sorted(st.heap.items(), key=lambda x: str(x[0])):
+            parts.append((repr(f.key), tuple((str(l), vk(v)) for l, v in sorted(f.locals.items(), key=lambda x: str(x[0])))))
+        cons = []
+        for t, v in st.cons.items():
+            toks = T.tokens_of(t)
+            if all(x in ren for x in toks):
+                cons.append((repr(rt(t)), v.key()))
+        cons.sort()
+        preds = sorted(repr(p) for p in st.preds)
+        return (tuple(parts), tuple(cons), tuple(preds))
+
     def step(self, st):
         fr = st.top()
+        if fr.si == 0 and fr.bb in self.loop_heads(fr.body):
+            k = self.state_key(st)
+            if k in self.seen_loop_states:
+                self.subsumed += 1
+                return []
+            self.seen_loop_states.add(k)
         blk = fr.body['blocks'][fr.bb]
         if self.observe:
             self.reached.add((fr.key, fr.bb))
